@@ -12,7 +12,7 @@ from concurrent.futures import ThreadPoolExecutor
 VERIF = os.path.dirname(os.path.dirname(os.path.abspath(__file__)))
 SPEC = os.path.join(VERIF, 'spec')
 HARNESS = os.path.join(VERIF, 'harness')
-BUILD = os.path.join(VERIF, '.build')
+BUILD = os.environ.get('VERIF_BUILD', os.path.join(VERIF, '.build'))
 RUN = os.path.join(VERIF, 'run')
 EVID = os.path.join(VERIF, 'evidence')
 REPO = os.environ.get('VERIF_REPO', '/repo')
@@ -20,6 +20,16 @@ JAR = '/opt/veriftools/tla/tla2tools.jar:/opt/veriftools/tla/CommunityModules-de
 NCPU = os.cpu_count() or 4
 
 SAN_FLAGS = '-fsanitize=address,undefined;-fno-sanitize=vptr;-fno-sanitize-recover=undefined'
+
+
+def snapshot_spec(workdir):
+    """Work on a private copy of the specification so that a run is not
+    disturbed by edits (and parallel runs do not share TLC's scratch files)."""
+    global SPEC
+    dst = os.path.join(workdir, 'spec')
+    shutil.copytree(os.path.join(VERIF, 'spec'), dst, ignore=shutil.ignore_patterns('states', '*.toolbox', '.tlacache'))
+    SPEC = dst
+    return dst
 
 
 class MachineryError(Exception):
